@@ -1,4 +1,208 @@
-import Pyiga.Model.VForm
-import Pyiga.Model.SLP
+/-
+C06 — form rewriting and differentiation passes preserve the integrand's value.
+
+Property theorems about the model `Pyiga/Model/VForm.lean` (one constructor per `pyiga.vform`
+expression class) and `Pyiga/Model/SLP.lean`.  `ev o ρ e i j` is entry `(i,j)` of expression `e`
+in the jet environment `ρ` (values of every variable entry / basis function for every derivative
+multi-index, Gauss weights, measures) over the operations `o`.  All theorems are by structural
+induction over *all* expression trees / all programs; none is a bounded enumeration.
+-/
+import Pyiga.Proofs.VForm
+import Pyiga.Proofs.VFormAlg
+import Pyiga.Proofs.VFormKey
+import Pyiga.Proofs.SLP
+import Mathlib.Data.Matrix.Mul
+import Mathlib.Data.Matrix.Diagonal
+
 namespace Pyiga.Props.C06
+open Pyiga.VForm Pyiga.VForm.Expr Pyiga.SLP
+
+/-- **at_sound.**  Indexing `e[i]` / `e[i,j]` (`__getitem__` → `at` of LiteralVector/Matrix,
+TensorOperExpr (broadcast operands included, they are literal), VectorCrossExpr, OuterProdExpr,
+MatVecExpr, MatMatExpr) denotes entry `(i,j)` of `e` — over *any* operations (no algebraic law is
+used: `at` builds exactly the defining sums, in the defining association). -/
+theorem at_sound {α : Type} (o : Ops α) (ρ : Env α) (e : Expr) (i j : Nat) :
+    ev o ρ (atE e i j) 0 0 = ev o ρ e i j :=
+  at_sound_aux o ρ e i j
+
+/-- **literal_sound.**  `_to_literal_vec_mat` at a vector / matrix node preserves every in-range
+entry (vectors are addressed as `(i,0)`). -/
+theorem literal_sound {α : Type} (o : Ops α) (ρ : Env α) (e : Expr) :
+    (∀ n i, shape e = [n] → i < n → ev o ρ (toLit1 e) i 0 = ev o ρ e i 0) ∧
+    (∀ m n i j, shape e = [m, n] → i < m → j < n → ev o ρ (toLit1 e) i j = ev o ρ e i j) :=
+  ⟨fun n i hs hi => toLit1_vec o ρ e n i hs hi, fun m n i j hs hi hj => toLit1_mat o ρ e m n i j hs hi hj⟩
+
+/-- **transpose_sound.**  Entry `(i,j)` of `e.T` is entry `(j,i)` of `e`. -/
+theorem transpose_sound {α : Type} (o : Ops α) (ρ : Env α) (e : Expr) (m n i j : Nat)
+    (hs : shape e = [m, n]) (hi : i < n) (hj : j < m) :
+    ev o ρ (transposeE e) i j = ev o ρ e j i :=
+  transpose_entry o ρ e m n i j hs hi hj
+
+/-- **fold_constants_sound.**  Constant folding (all-constant nodes evaluated; `0+y`, `x+0`,
+`x+(-y)`, `0-y`, `x-0`, `x-(-y)`, `0*y`, `1*y`, `-1*y`, `x*1`, `x*(-1)`, `0/y`, `x/1`, `x/(-1)`, with the
+*exact* `is_constant` test) preserves every entry of every expression, in every field of
+characteristic 0, for every environment and every interpretation of the builtin functions.
+`SopWS` is the shape discipline asserted by the Python constructors (operands of scalar nodes are
+scalar nodes).  Division: Lean's `x/0 = 0`; Python raises on a constant zero divisor instead
+(`foldRaises`), and `0/y ↦ 0` is valid wherever `0/y` is defined. -/
+theorem fold_constants_sound {α : Type} [Field α] [CharZero α] (fn : String → α → α) (ρ : Env α)
+    (e : Expr) (hws : SopWS e = true) (i j : Nat) :
+    ev (fieldOps fn) ρ (foldAll e) i j = ev (fieldOps fn) ρ e i j :=
+  foldAll_sound_aux fn ρ e hws i j
+
+/-- non-vacuity: a well-shaped tree on which folding does something -/
+example : SopWS (sop .add (sop .mul (const 1) (varref "f" [] [0] false)) (sop .mul (const 0) dx)) = true
+    ∧ foldAll (sop .add (sop .mul (const 1) (varref "f" [] [0] false)) (sop .mul (const 0) dx))
+        = varref "f" [] [0] false := by
+  constructor
+  · simp [SopWS, scalarCls]
+  · simp [foldAll, fold1, isZero, isConst]
+
+/-- **dx_sound.**  `IsDeriv d`: `d k` are derivations of the value field (additive, Leibniz, zero on
+rational constants).  `JetClosed d par vt fn ρ`: the environment is a jet for the flavour `par`
+(parametric/physical): the value of multi-index `D + n·e_k` is `∂_k^n` of the value of `D`, parameters
+are constant, expression-defined variables hold the value of their definition.  Then whenever
+`Dx(e,k,times,par)` returns, the result denotes `∂_k^times ⟦e⟧` — constants, variable references of
+all three kinds, basis functions, `+ − * /` (product and quotient rule). -/
+theorem dx_sound {α : Type} [Field α] [CharZero α] (d : Nat → α → α) (hd : IsDeriv d) (vt : VarTable)
+    (fn : String → α → α) (ρ : Env α) (par : Bool) (hρ : JetClosed d par vt fn ρ)
+    (fuel : Nat) (e : Expr) (k times : Nat) (e' : Expr)
+    (h : dxE vt fuel e k times par = .ok e') :
+    ev (fieldOps fn) ρ e' 0 0 = (d k)^[times] (ev (fieldOps fn) ρ e 0 0) :=
+  dx_sound_aux d hd vt fn ρ par hρ k fuel e times e' h
+
+/-- non-vacuity of `IsDeriv`: the zero derivation on ℚ -/
+example : IsDeriv (fun (_ : Nat) (_ : ℚ) => (0 : ℚ)) :=
+  ⟨fun _ _ _ => by simp, fun _ _ _ => by simp, fun _ _ => rfl⟩
+
+/-- **key_sound.**  If every stored attribute of every class occurs in its `hash_key`
+(`KeyTableComplete t`, re-decided on the table regenerated from the source on every run), then
+two expression trees with the same key are the same tree — so they have the same value in every
+environment over every operations, and the same generated code. -/
+theorem key_sound (t : KeyTable) (hc : KeyTableComplete t = true) (e₁ e₂ : Expr)
+    (h : key t e₁ = key t e₂) :
+    e₁ = e₂ ∧ ∀ {α : Type} (o : Ops α) (ρ : Env α) (i j : Nat), ev o ρ e₁ i j = ev o ρ e₂ i j := by
+  have := key_injective t hc e₁ e₂ h
+  subst this
+  exact ⟨rfl, fun _ _ _ _ => rfl⟩
+
+/-- negation witness for the defect repaired by `fix: BuiltinFuncExpr … function name` (D1): with
+`funcname` missing from the table, `sin(f)` and `cos(f)` have the same key. -/
+example :
+    let t : KeyTable := [(.Const, [.value]), (.VarRef, [.varName, .I, .D, .parametric]), (.Builtin, [])]
+    KeyTableComplete t = false ∧
+    key t (builtin "sin" (varref "f" [] [0] false)) = key t (builtin "cos" (varref "f" [] [0] false)) := by
+  constructor
+  · decide
+  · simp [key, KeyTable.attrs]
+
+/-- **cse_sound.**  One step of `extract_common_expressions`: every node whose key equals the key
+of the extracted expression `c` is replaced by `x` (the reference to the new variable).  With a
+complete key table, if the store gives `x` the value of `c`, every entry of every expression is
+unchanged (and shapes are kept). -/
+theorem cse_sound {α : Type} (o : Ops α) (ρ : Env α) (t : KeyTable) (hc : KeyTableComplete t = true)
+    (c x : Expr) (hx : ∀ i j, ev o ρ x i j = ev o ρ c i j) (hs : shape x = shape c) (e : Expr) :
+    (∀ i j, ev o ρ (cseReplace (fun n => KeyTree.beq (key t n) (key t c)) x e) i j = ev o ρ e i j)
+      ∧ shape (cseReplace (fun n => KeyTree.beq (key t n) (key t c)) x e) = shape e := by
+  apply cseReplace_sound
+  · intro n hn i j
+    have := key_injective t hc n c (KeyTree.beq_sound _ _ hn)
+    subst this; exact hx i j
+  · intro n hn
+    have := key_injective t hc n c (KeyTree.beq_sound _ _ hn)
+    subst this; exact hs
+
+/-- **inline_sound** (the verified checker used to validate CSE + trivial-variable elimination on
+every corpus form): if the store is consistent with the listed definitions, inlining them
+preserves every entry.  Hence `inline(after) = inline(before)` (checked per form) implies
+`⟦after⟧ = ⟦before⟧`. -/
+theorem inline_sound {α : Type} (o : Ops α) (ρ : Env α) (defs : List (String × Expr))
+    (H : ∀ v I D q d, defs.find? (·.1 == v) = some d →
+      (∀ i j, ev o ρ (underlying d.2 I) i j = ρ.var v I D q) ∧ shape (underlying d.2 I) = [])
+    (e : Expr) (i j : Nat) : ev o ρ (inlineVars defs e) i j = ev o ρ e i j :=
+  (inlineVars_sound o ρ defs H e).1 i j
+
+/-- **vec_subst_sound.**  `replace_vector_bfuns(·, name, comp)`: the result in `ρ` equals the
+original in the environment where component `c` of the vector basis function is `δ_{c,comp}·φ`.
+Composing it for `v` and `u` gives: entry `(i,j)` of `substitute_vec_components` is the form applied
+to `(ψ e_i, φ e_j)`. -/
+theorem vec_subst_sound {α : Type} (o : Ops α) (ρ : Env α) (basic : BFun) (comp : Nat) (e : Expr) (i j : Nat) :
+    ev o ρ (replBf basic comp e) i j = ev o (ρ.selectComp o basic comp) e i j :=
+  (replBf_sound o ρ basic comp e).1 i j
+
+/-- **schedule_sound.**  If the emitted order is single-assignment and def-before-use
+(`defBeforeUse`, the checker run on the dumped `linear_deps` / precompute / kernel programs of every
+corpus form) and right-hand sides only depend on what they read, then after running the program
+every variable holds the value of its defining expression *in the final store*, and names known
+beforehand (inputs) are untouched. -/
+theorem schedule_sound {α : Type} (sem : String → Store α → α) (known : List String) (p : Prog)
+    (h : defBeforeUse known p = true) (hloc : Local sem p) (σ : Store α) :
+    (∀ s ∈ p, run sem p σ s.lhs = sem s.rhs (run sem p σ)) ∧ (∀ v ∈ known, run sem p σ v = σ v) :=
+  ⟨run_fixpoint sem p known σ h hloc, fun v hv => run_known sem p known σ v h hv⟩
+
+/-- soundness half used above, stated for the checker itself: a rejected order is the only way a
+variable can be read before it is assigned. -/
+theorem defBeforeUse_sound (known : List String) (s : Stmt) (p : Prog)
+    (h : defBeforeUse known (s :: p) = true) :
+    (∀ v ∈ s.reads, v ∈ known) ∧ s.lhs ∉ known ∧ defBeforeUse (s.lhs :: known) p = true := by
+  simp only [defBeforeUse, Bool.and_eq_true, Bool.not_eq_eq_eq_not, Bool.not_true] at h
+  obtain ⟨⟨hr, hl⟩, hp⟩ := h
+  refine ⟨fun v hv => ?_, ?_, hp⟩
+  · have := List.all_eq_true.mp hr v hv
+    simpa using this
+  · intro hm
+    have : known.contains s.lhs = true := by simpa using hm
+    rw [this] at hl; cases hl
+
+/-- non-vacuity / negation witness: a def-before-use program, and the same statements in an order
+that reads `b` before it is defined -/
+example : defBeforeUse ["x"] [⟨"a", ["x"], "r1"⟩, ⟨"b", ["a", "x"], "r2"⟩] = true
+    ∧ defBeforeUse ["x"] [⟨"b", ["a", "x"], "r2"⟩, ⟨"a", ["x"], "r1"⟩] = false := by
+  constructor <;> decide
+
+/-- **slp_perm_sound.**  Two single-assignment, def-before-use programs that are permutations of
+each other compute the same final store (checker `permEquiv`). -/
+theorem slp_perm_sound {α : Type} (sem : String → Store α → α) (inputs : List String) (p q : Prog)
+    (h : permEquiv inputs p q = true) (hloc : Local sem p) (σ : Store α) :
+    run sem p σ = run sem q σ :=
+  permEquiv_sound sem inputs p q h hloc σ
+
+/-! ### physical derivatives (`replace_physical_derivs`)
+
+Physical derivatives are *defined* by the chain rule: `∇_para f = Jᵀ ∇_phys f` and
+`H_para f = Jᵀ H_phys f J + Σ_m (∇_phys f)_m H_para G_m`.  The code emits
+`inner(JacInv[:,k], ∇_para f)` and `JacInv[:,i]·(H_para f·JacInv[:,j]) + Σ_k (∇_para f)_k T(k,i,j)` with
+`T(a,i,j) = −Σ_{m,e,u} H_para G_m[e,u] JacInv[a,m] JacInv[e,i] JacInv[u,j]`.  The two theorems below are
+the dimension-generic matrix identities behind these formulas; that the *emitted terms* are these
+matrix expressions is re-proved per run for order 1, dims 2–3 (T-alg `chain_d_k`) and checked exactly by the
+before/after oracle on every corpus form for order 2 and the space-time branch (see `phys_to_para_full`). -/
+
+open Matrix in
+/-- **chain_rule_first_order.** -/
+theorem chain_rule_first_order {α : Type} [CommRing α] {n : Type} [Fintype n] [DecidableEq n]
+    (J Jinv : Matrix n n α) (h : J * Jinv = 1) (g : n → α) :
+    Jinvᵀ *ᵥ (Jᵀ *ᵥ g) = g := by
+  rw [Matrix.mulVec_mulVec, ← Matrix.transpose_mul, h, Matrix.transpose_one, Matrix.one_mulVec]
+
+open Matrix in
+/-- **chain_rule_second_order** (with the geometry-Hessian term and its sign): if
+`Hp = Jᵀ H J + S` (`S = Σ_m g_m H_para G_m`) then `Jinvᵀ Hp Jinv − Jinvᵀ S Jinv = H`. -/
+theorem chain_rule_second_order {α : Type} [CommRing α] {n : Type} [Fintype n] [DecidableEq n]
+    (J Jinv H S Hp : Matrix n n α) (h : J * Jinv = 1) (hHp : Hp = Jᵀ * H * J + S) :
+    Jinvᵀ * Hp * Jinv - Jinvᵀ * S * Jinv = H := by
+  subst hHp
+  have ht : Jinvᵀ * Jᵀ = 1 := by rw [← Matrix.transpose_mul, h, Matrix.transpose_one]
+  calc Jinvᵀ * (Jᵀ * H * J + S) * Jinv - Jinvᵀ * S * Jinv
+      = (Jinvᵀ * Jᵀ) * H * (J * Jinv) := by
+        simp only [Matrix.mul_add, Matrix.add_mul, Matrix.mul_assoc, add_sub_cancel_right]
+    _ = H := by rw [ht, h, Matrix.one_mul, Matrix.mul_one]
+
+/-- Full statement for the physical-derivative pass (NOT proved as a Lean theorem about a
+transliterated `replace_physical_derivs`; see the doc comment above for how it is tied): for every
+expression `e`, `⟦replace_physical_derivs e⟧ = ⟦e⟧` in every environment whose physical jets satisfy
+the chain-rule defining equations w.r.t. its parametric jets and the geometry jets. -/
+def phys_to_para_full : Prop :=
+  ∀ (α : Type) [Field α] (replacePhys : Expr → Expr) (ChainRuleEnv : Env α → Prop) (o : Ops α),
+    ∀ ρ, ChainRuleEnv ρ → ∀ e i j, ev o ρ (replacePhys e) i j = ev o ρ e i j
+
 end Pyiga.Props.C06
